@@ -192,21 +192,55 @@ impl Variant {
     ];
 }
 
+/// `file:` part of an error / panic location, relative to the repository
+fn site_of(path: &str) -> String {
+    panic_site(path)
+}
+
 /// runs the whole case on one database; `reopen` lines close and reopen persistent variants
 fn drive<S: agdb::StorageData>(
     ctx: &mut CaseCtx,
-    open: &dyn Fn() -> agdb::DbImpl<S>,
+    open: &dyn Fn() -> Result<agdb::DbImpl<S>, agdb::DbError>,
     persistent: bool,
 ) {
-    let mut db = open();
+    let mut db = open().expect("harness: cannot create database");
     loop {
         match ctx.run(&mut db) {
             RunExit::Done => break,
             RunExit::Reopen => {
-                if persistent {
-                    drop(db);
-                    db = open();
-                    ctx.st.bump("reopens_performed", 1);
+                if !persistent {
+                    ctx.reopen_done(None, &db);
+                    continue;
+                }
+                let before = ctx.reopen_before(&db);
+                drop(db);
+                ctx.st.bump("reopens_performed", 1);
+                match std::panic::catch_unwind(AssertUnwindSafe(open)) {
+                    Ok(Ok(d)) => {
+                        db = d;
+                        ctx.reopen_done(Some(&before), &db);
+                    }
+                    Ok(Err(e)) => {
+                        let mut inner = &e;
+                        while let Some(c) = &inner.cause {
+                            inner = c;
+                        }
+                        let site = site_of(inner.source_location.file());
+                        ctx.reopen_failed(
+                            exec::fmt_err(&e),
+                            &site,
+                            format!("{}: {}", exec::fmt_err(inner), inner.description),
+                        );
+                        return;
+                    }
+                    Err(_) => {
+                        let file = LAST_PANIC
+                            .with(|p| p.borrow_mut().take())
+                            .unwrap_or_else(|| "unknown".to_string());
+                        let site = site_of(&file);
+                        ctx.reopen_failed(format!("panic:{site}"), &site, format!("panic in {site}"));
+                        return;
+                    }
                 }
             }
         }
@@ -215,36 +249,12 @@ fn drive<S: agdb::StorageData>(
 
 fn drive_variant(ctx: &mut CaseCtx, v: Variant, path: &str) {
     match v {
-        Variant::Memory => drive(
-            ctx,
-            &|| agdb::DbMemory::new("verif_db").expect("harness: cannot create DbMemory"),
-            false,
-        ),
-        Variant::File => drive(
-            ctx,
-            &|| agdb::DbFile::new(path).expect("harness: cannot open DbFile"),
-            true,
-        ),
-        Variant::Mapped => drive(
-            ctx,
-            &|| agdb::Db::new(path).expect("harness: cannot open Db"),
-            true,
-        ),
-        Variant::AnyMemory => drive(
-            ctx,
-            &|| agdb::DbAny::new_memory("verif_db_any").expect("harness: cannot create DbAny memory"),
-            false,
-        ),
-        Variant::AnyFile => drive(
-            ctx,
-            &|| agdb::DbAny::new_file(path).expect("harness: cannot open DbAny file"),
-            true,
-        ),
-        Variant::AnyMapped => drive(
-            ctx,
-            &|| agdb::DbAny::new(path).expect("harness: cannot open DbAny mapped"),
-            true,
-        ),
+        Variant::Memory => drive(ctx, &|| agdb::DbMemory::new("verif_db"), false),
+        Variant::File => drive(ctx, &|| agdb::DbFile::new(path), true),
+        Variant::Mapped => drive(ctx, &|| agdb::Db::new(path), true),
+        Variant::AnyMemory => drive(ctx, &|| agdb::DbAny::new_memory("verif_db_any"), false),
+        Variant::AnyFile => drive(ctx, &|| agdb::DbAny::new_file(path), true),
+        Variant::AnyMapped => drive(ctx, &|| agdb::DbAny::new(path), true),
     }
 }
 
@@ -359,7 +369,13 @@ fn run_one_case(
                 g.reopen_pct = 4;
                 Source::Gen(Box::new(g))
             } else {
-                Source::Gen(Box::new(Generator::new(seed, prop, thorough)))
+                let mut g = Generator::new(seed, prop, thorough);
+                if case_no % 2 == 1 {
+                    // DbFile cases: close + reopen at a few places, and near the end of a third of them
+                    g.reopen_pct = 3;
+                    g.final_reopen = seed % 3 == 0;
+                }
+                Source::Gen(Box::new(g))
             }
         }
     };
